@@ -29,6 +29,11 @@ type Obligation struct {
 	Res        SolverResult
 	replayed   bool
 	replayNote string
+	replayData map[string]interface{}
+	// for the replay harness: the function under contract, its symbolic arguments and its pre-state
+	fnSSA *ssa.Function
+	pre   *State
+	args  []Value
 }
 
 type namedTerm struct {
@@ -40,6 +45,7 @@ type Exec struct {
 	prog         *ssa.Program
 	pkgs         map[string]*ssa.Package
 	contracts    map[string]*Contract
+	topArgs      []Value
 	objs         []objInfo
 	nextCell     int
 	globalCells  map[*ssa.Global]int
@@ -141,7 +147,8 @@ func (ex *Exec) oblige(st *State, kind, name string, props []string, goal *Term,
 		return
 	}
 	o := &Obligation{Name: name, Kind: kind, Props: propSet(props), Fn: fnName(ex.top), Goal: goal,
-		Assumes: append([]*Term(nil), st.pc...), Note: note, Inputs: ex.inputs, Path: strings.Join(ex.pathTrace, ">")}
+		Assumes: append([]*Term(nil), st.pc...), Note: note, Inputs: ex.inputs, Path: strings.Join(ex.pathTrace, ">"),
+		fnSSA: ex.top, pre: ex.topPre, args: ex.topArgs}
 	if ex.topC != nil {
 		o.Without = ex.topC.Without
 	}
